@@ -10,6 +10,7 @@ import (
 	"net/netip"
 	"sort"
 	"strconv"
+	"reflect"
 	"strings"
 	"testing"
 	"time"
@@ -474,6 +475,20 @@ func emitDoc(out *verifh.Out, id string, d *c02doc, tags []string, desc string) 
 		tags = append(tags, "result:accept")
 		impl = verifh.Some(x.config(c, c02epoch, &bad))
 		cs.Observed = map[string]any{"accepted": true, "interfaces": len(c.Interfaces)}
+		// every interface has a configuration of its own, also those written as one `names` group: the plugins are
+		// values that each interface's task prepares with ITS interface (hardware address, address source) -- two
+		// interfaces holding the same plugin object is one of them advertising the other's state
+		seen := map[uintptr]int{}
+		for i, ifi := range c.Interfaces {
+			for _, p := range ifi.Plugins {
+				if v := reflect.ValueOf(p); v.Kind() == reflect.Pointer {
+					if j, ok := seen[v.Pointer()]; ok && j != i {
+						bad = append(bad, fmt.Sprintf("interfaces %q and %q share one %s plugin object", c.Interfaces[j].Name, ifi.Name, p.Name()))
+					}
+					seen[v.Pointer()] = i
+				}
+			}
+		}
 	}
 	if len(bad) > 0 {
 		cs.ImplViolation = strings.Join(bad, "; ")
